@@ -215,7 +215,7 @@ func (rep *Report) Finish() int {
 		"property_id": rep.Prop,
 		"tier":        rep.Tier,
 		"seed":        seedFromEnv(),
-		"level":       "proof",
+		"level":       levelOf(rep.Prop),
 		"coverage": map[string]interface{}{
 			"obligations":                             total,
 			"discharged":                              okCount,
@@ -225,6 +225,8 @@ func (rep *Report) Finish() int {
 			"obligations_by_kind":                     byKind,
 			"discharged_by_solver":                    bySolver,
 			"obligations_not_attempted_after_failure": skipped,
+			"quick_tier_sampled_case_splits":          rep.Runner.Sampled,
+			"deferred_to_thorough_tier":               rep.Sel.Deferred,
 			"obligations_ideal":                       idealCount,
 			"vacuity_covers_checked":                  covers,
 			"vacuity_covers_satisfied":                coversSat,
@@ -234,6 +236,7 @@ func (rep *Report) Finish() int {
 			"bounded_checks":                          bounded,
 			"samples":                                 samples,
 			"known_findings_seen":                     knownSeen,
+			"explanation":                             explanationOf(rep.Prop),
 			"kinds_legend":                            "P postcondition, R callee precondition, I0/I1 invariant establishment/preservation, S no-panic safety, O integer overflow, X float side condition, L lemma, V vacuity guard (expected satisfiable), M string-model bound, F frame, D order-determinism",
 		},
 		"assumptions": assumptions,
@@ -271,6 +274,20 @@ func (rep *Report) Finish() int {
 		return 1
 	}
 	return 0
+}
+
+func explanationOf(prop string) string {
+	if prop == "C19" {
+		return "Contracts cannot quantify over schedules. What is decided is the frame statement that makes every interleaving equivalent to some sequential order: no function of the library (and no dependency code reachable from it) writes memory it did not allocate or receive as the receiver of a declared mutator, and no package-level variable is written outside init. Each store site is an F obligation discharged by an SSA provenance analysis."
+	}
+	return "Obligations generated from the current working tree by weakest-precondition calculation over go/ssa and discharged by SMT solvers; see DESIGN.md."
+}
+
+func levelOf(prop string) string {
+	if prop == "C19" {
+		return "other"
+	}
+	return "proof"
 }
 
 func (rep *Report) instancesOf(sc *Script) int {
